@@ -163,13 +163,16 @@ def run(ctx):
     ctx.touch(cl)
     sc = sym.summarize(repo, cl.qualname)
     ctx.clause("objects are built from the columns the parser wrote (id/x/y, id/id1/id2/force, id/edges/pressures)")
-    vs = [e for e in sc.stores() if e.sub and e.value[0] == "call" and e.value[1] == "new:forsys.vertex.Vertex"]
+    all_entries = rules.entries(sc)
+    for nm in sorted({a.name for a in sc.events if a.kind == "assign"}):
+        all_entries += rules.entries(sc, name=nm)
+    vs = [e for e in all_entries if e.elem[0] == "call" and e.elem[1] == "new:forsys.vertex.Vertex"]
     ok = False
     for e in vs:
         lp = e.loops()
         if lp and lp[-1][2] == T.call(("m", "iterrows"), (T.call(f"{SE}.get_vertices", (SELF,)),)):
             r = T.idx(("bv", lp[-1][1]), T.num(1))
-            ok = e.value[2] == (T.call("int", (T.attr(r, "id"),)), T.attr(r, "x"), T.attr(r, "y"))
+            ok = e.elem[2] == (T.call("int", (T.attr(r, "id"),)), T.attr(r, "x"), T.attr(r, "y")) and e.key == T.call("int", (T.attr(r, "id"),))
     ctx.check(ok, "ALIGN", f"{cl.qualname} / ALIGN / Vertex(int(r.id), r.x, r.y) per row of get_vertices()", ctx.where(cl), "columns id, x, y",
               "vertices are not built as Vertex(int(r.id), r.x, r.y) from get_vertices()")
     es = [e for e in sc.stores() if e.sub and e.value[0] == "call" and e.value[1] == "new:forsys.edge.SmallEdge"]
@@ -271,21 +274,32 @@ def run(ctx):
     ctx.count("FORM", "face-line slices in get_cells", n_sl, 4)
 
     ctx.clause("vertices and edges that belong to no face are dropped")
-    ap = [e for e in sc.events if e.kind == "call" and isinstance(e.fname, tuple) and e.fname[1] == "append" and e.loops()]
+    ap = [e for e in rules.additions(sc) if e.loops()]
     ok = False
     for e in ap:
-        b = ("bv", e.loops()[-1][1])
-        if e.conds() == [T.b_not(T.ige(T.call("len", (T.attr(T.idx(b, T.num(1)), "ownCells"),)), 1))] and e.args and e.args[0] in (T.call("int", (T.idx(b, T.num(0)),)), T.idx(b, T.num(0))):
+        ro = rules.roles(e.loops()[-1])
+        if ro.kind == "items" and e.conds() == [T.b_not(T.ige(T.call("len", (T.attr(ro.val, "ownCells"),)), 1))] and e.args[0] in (T.call("int", (ro.key,)), ro.key):
             ok = True
     dv = [e for e in sc.events if e.kind == "del"]
     ctx.check(ok and len(dv) >= 2, "PAIR", f"{cl.qualname} / PAIR / vertices without cells are collected and deleted together with their edges", ctx.where(cl),
               "len(v.ownCells) == 0 -> delete incident edges, delete vertex", "orphan vertices (no cell) are no longer removed")
 
     ctx.clause("section boundaries come from the five literal markers")
-    lits = sorted({c.args[0].value for c in repo.calls_in(fl) if isinstance(c.func, ast.Attribute) and c.func.attr == "startswith"
-                   and c.args and isinstance(c.args[0], ast.Constant)})
+    # read from the evaluated function (private helpers expanded), in program order: each section is located by a scan for its
+    # own marker followed by a scan for the next section's marker, with a rewind before every pair but the first
+    sfl = sym.summarize(repo, fl.qualname)
+    seq_m = []
+    for e in sfl.events:
+        if e.kind == "call" and e.fname == ("m", "startswith") and e.args and e.args[0][0] == "str":
+            seq_m.append(e.args[0][1])
+        elif e.kind == "call" and e.fname == ("m", "seek"):
+            seq_m.append("<rewind>")
+    lits = sorted(set(seq_m) - {"<rewind>"})
     ctx.check(lits == sorted(["vertices  ", "edges  ", "faces  ", "bodies  ", "read"]), "CONST", f"{fl.qualname} / CONST / section markers", ctx.where(fl),
               f"{lits}", f"section markers are {lits}")
+    want = ["vertices  ", "edges  ", "<rewind>", "edges  ", "faces  ", "<rewind>", "faces  ", "bodies  ", "<rewind>", "bodies  ", "read"]
+    ctx.check(seq_m == want, "PAIR", f"{fl.qualname} / PAIR / each section is delimited by its own marker and the next one, rewinding in between", ctx.where(fl),
+              " -> ".join(want), f"scans run as {seq_m}")
 
     # ================================================================== frame: interface reference = mean of its mesh edges
     ctx.clause("a frame built with gt=True reports as each interface's reference tension the mean density of its mesh edges")
